@@ -530,4 +530,48 @@ theorem exact_subsumed (l t : Label) (h : (patternFromLabel l).matches t = true)
 example : (Pattern.mk [97] [] true).matches ⟨[97, 47, 98], [99]⟩ = true ∧
     (Pattern.mk [97, 47, 98] [] true).matches ⟨[97, 47, 98], [99]⟩ = true := by decide
 
+/-- `grog build A… B…` selects exactly what `grog build A…` and `grog build B…` select together: the arguments
+    parse together iff they parse separately, and the set they denote is the union. -/
+theorem parsePatterns_append_isSome (cur : Bytes) (ss₁ ss₂ : List Bytes) :
+    (parsePatterns cur (ss₁ ++ ss₂)).isSome = ((parsePatterns cur ss₁).isSome && (parsePatterns cur ss₂).isSome) := by
+  have h := (parsePatterns_spec cur (ss₁ ++ ss₂)).1
+  have h₁ := (parsePatterns_spec cur ss₁).1
+  have h₂ := (parsePatterns_spec cur ss₂).1
+  cases e : parsePatterns cur (ss₁ ++ ss₂) with
+  | none =>
+    obtain ⟨s, hs, hn⟩ := h.mp e
+    rcases List.mem_append.mp hs with hs | hs
+    · simp [h₁.mpr ⟨s, hs, hn⟩]
+    · simp [h₂.mpr ⟨s, hs, hn⟩]
+  | some ps =>
+    cases e₁ : parsePatterns cur ss₁ with
+    | none =>
+      obtain ⟨s, hs, hn⟩ := h₁.mp e₁
+      rw [h.mpr ⟨s, List.mem_append_left _ hs, hn⟩] at e; cases e
+    | some ps₁ =>
+      cases e₂ : parsePatterns cur ss₂ with
+      | none =>
+        obtain ⟨s, hs, hn⟩ := h₂.mp e₂
+        rw [h.mpr ⟨s, List.mem_append_right _ hs, hn⟩] at e; cases e
+      | some ps₂ => rfl
+
+theorem parsePatterns_union (cur : Bytes) (ss₁ ss₂ : List Bytes) (ps₁ ps₂ ps : List Pattern)
+    (h₁ : ss₁ ≠ []) (h₂ : ss₂ ≠ [])
+    (hp₁ : parsePatterns cur ss₁ = some ps₁) (hp₂ : parsePatterns cur ss₂ = some ps₂)
+    (hp : parsePatterns cur (ss₁ ++ ss₂) = some ps) (l : Label) :
+    matchesAny ps l = true ↔ (matchesAny ps₁ l = true ∨ matchesAny ps₂ l = true) := by
+  rw [parsePatterns_matches_iff cur _ ps hp l, parsePatterns_matches_iff cur _ ps₁ hp₁ l,
+    parsePatterns_matches_iff cur _ ps₂ hp₂ l]
+  have hne : ss₁ ++ ss₂ ≠ [] := by simp [h₁]
+  simp only [hne, h₁, h₂, false_or, List.mem_append]
+  constructor
+  · rintro ⟨s, hs | hs, hx⟩
+    · exact Or.inl ⟨s, hs, hx⟩
+    · exact Or.inr ⟨s, hs, hx⟩
+  · rintro (⟨s, hs, hx⟩ | ⟨s, hs, hx⟩)
+    · exact ⟨s, Or.inl hs, hx⟩
+    · exact ⟨s, Or.inr hs, hx⟩
+
+example : parsePatterns [] ([[47, 47, 97]] ++ [[47, 47, 98]]) = some [⟨[97], [97], false⟩, ⟨[98], [98], false⟩] := by decide
+
 end Grog.C17
